@@ -555,6 +555,16 @@ impl<'tcx> Cx<'tcx> {
         }
         if matches!(tcx.def_kind(did), DefKind::Fn | DefKind::AssocFn) {
             v.push(("vis", s(format!("{:?}", tcx.visibility(did)))));
+            // own (non-parent) generic type parameter names, in order: lets a caller's type
+            // arguments be matched to the names used inside this generic body
+            let g = tcx.generics_of(did);
+            let mut names = Vec::new();
+            for p in g.own_params.iter() {
+                if let ty::GenericParamDefKind::Type { .. } = p.kind {
+                    names.push(s(p.name.to_string()));
+                }
+            }
+            v.push(("generics", J::Arr(names)));
         }
         // locals
         let mut locals = Vec::new();
